@@ -58,9 +58,8 @@ ASSUMPTIONS = [
     'one global positive-edge clock (named clk or given as clock_name), optionally through one clock buffer '
     '(.names clk alias); sub-circuits receive it on their formal clk; clocks and their aliases never feed logic',
     'covers are on-set covers (output plane 1); off-set rows are rejected by the importer (checked: PyrtlError)',
-    'well-formed covers: every row as wide as the input list; a cover with inputs has >= 1 row '
-    '(".names a b o" with no rows drives netio[0] instead of o and is rejected downstream); '
-    'a constant cover has <= 1 row',
+    'well-formed covers: every row as wide as the input list (no rows at all = constant 0 at any arity); '
+    'a constant cover (no inputs) has <= 1 row',
     'vector ports have >= 2 bits, indices 0..n-1 (a lone a[0] is rejected by the importer: wire never driven)',
     'unconstrained initial values (latch init 2/3, $_DFF cells, .bench DFF) resolve to 0 (Simulation default_value)',
     '.bench: INPUT/OUTPUT declarations precede gate definitions; input and output names are distinct',
@@ -442,6 +441,8 @@ def all_planes(n):
 def cover_lists(ctx, tier):
     """(n, rows) for every cover of the bounded-exhaustive family"""
     out = [(0, []), (0, [''])]
+    for n in (1, 2, 3, 4):
+        out.append((n, []))          # no rows at all: constant 0, whatever the input list
     for n in (1, 2):
         planes = all_planes(n)
         for k in (1, 2, 3):
@@ -488,14 +489,31 @@ def run_covers(ctx):
             inss = [[(v >> i) & 1 for i in range(n)] for v in range(1 << n)]
             try:
                 got, block = impl_blif_run(text, True, [(x, [x]) for x in ins], [(o, [o]) for o in outs], inss)
-            except Exception as e:
-                ctx.spec_violation('blif:cover:rejected', 'input_from_blif raised %s: %s on a batch of well-formed covers'
-                                   % (type(e).__name__, str(e)[:200]), {'blif': text[:5000], 'n': n})
-                continue
+            except Exception as e0:
+                # some cover of the batch makes the importer / simulator raise: import every cover on its own
+                # so that each offending cover is reported (and the others are still compared)
+                got = [[None] * len(chunk) for _ in inss]
+                for j, rows in enumerate(chunk):
+                    single = Model('c', 0, ins, ['o'], [('names', ins + ['o'], rows)])
+                    try:
+                        g1, _ = impl_blif_run(blif_text([single], single), True, [(x, [x]) for x in ins],
+                                              [('o', ['o'])], inss)
+                        for v in range(len(inss)):
+                            got[v][j] = g1[v][0]
+                    except Exception as e:
+                        ctx.spec_violation('blif:cover:rejected',
+                                           'input_from_blif/Simulation raised %s: %s on the well-formed cover %s over '
+                                           '%d inputs' % (type(e).__name__, ' '.join(str(e).split())[:160], rows, n),
+                                           {'blif': blif_text([single], single), 'inputs_lsb_first': inss,
+                                            'expected': [int(cover_value(rows, r)) for r in inss]})
             for j, rows in enumerate(chunk):
                 impl_tt = [got[v][j] for v in range(1 << n)]
+                if impl_tt and impl_tt[0] is None:     # rejected above
+                    ctx.case(('cover', n, tuple(rows)), nontrivial=False)
+                    coq_meta.append((n, rows, None, [int(cover_value(rows, inss[v])) for v in range(1 << n)]))
+                    continue
                 want_tt = [int(cover_value(rows, inss[v])) for v in range(1 << n)]
-                nontriv = len(set(want_tt)) > 1 or n == 0
+                nontriv = len(set(want_tt)) > 1 or n == 0 or not rows
                 ctx.case(('cover', n, tuple(rows)), nontrivial=nontriv,
                          sample={'family': 'cover', 'names': ins + ['o'], 'rows': rows, 'truth_table': impl_tt}
                          if (n == 3 and j == 40 and b0 == 0) else None)
@@ -522,10 +540,26 @@ def run_covers(ctx):
     for (n, rows, impl_tt, want_tt), (spec, model) in zip(coq_meta, flat):
         if [int(b) for b in spec] != want_tt:
             ctx.model_mismatch('cover_sem and the Python cover evaluator disagree', {'n': n, 'rows': rows})
+        if impl_tt is None:
+            continue
         if model is None or [int(b) for b in model] != impl_tt:
             ctx.model_mismatch('extract_cover model and input_from_blif disagree on a cover',
                                {'n': n, 'rows': rows, 'impl': impl_tt, 'model': model})
     ctx.count('cover_total', 'covers', len(coq_meta))
+    # observation (outside C12's statement, which quantifies over files / inputs / merge_io_vectors): importing
+    # into a block that is not the working block
+    for label, call in (('input_from_blif', lambda b: pyrtl.input_from_blif(
+            '.model t\n.inputs clk a b\n.outputs o\n.names a b o\n1- 1\n-0 1\n.latch o q re clk 1\n.end\n', block=b)),
+                        ('input_from_iscas_bench', lambda b: pyrtl.input_from_iscas_bench(
+                            'INPUT(a)\nINPUT(b)\nOUTPUT(y)\ny = NAND(a, b)\n', block=b))):
+        pyrtl.reset_working_block()
+        other = pyrtl.Block()
+        try:
+            call(other)
+            ctx.count('observation', '%s(block=non-working block): accepted' % label)
+        except Exception as e:
+            ctx.count('observation', '%s(block=non-working block): raises %s' % (label, type(e).__name__))
+    pyrtl.reset_working_block()
     # fail-closed probes (not counted as cases): off-set row, malformed tail
     for bad in ('.model t\n.inputs a\n.outputs o\n.names a o\n1 0\n0 1\n.end\n',):
         pyrtl.reset_working_block()
@@ -685,7 +719,7 @@ def run_flops(ctx):
 
 # ----------------------------------------------------------------------------- family 4: hierarchy, vectors
 def rand_cover(rng, n):
-    return [''.join(rng.choice('01-') for _ in range(n)) for _ in range(rng.randint(1, 3))]
+    return [''.join(rng.choice('01-') for _ in range(n)) for _ in range(rng.choice((0, 1, 1, 2, 2, 3, 3)))]
 
 
 def gen_leaf(rng, name, mid, vec_formals):
